@@ -308,3 +308,21 @@ def accumulate_in_try(xs):
 def or_default(a, b):
     x = a or b
     return x + 1
+
+def split_once(s):
+    parts = s.split(":", 1)
+    if len(parts) == 2:
+        a, b = parts
+        return len(a) * 100 + len(b)
+    return -1 - len(parts[0])
+
+def split_once_unpack(s, k):
+    a, b = s.split("=", 1)
+    if a == k:
+        return 1000 + len(b)
+    return len(a)
+
+def subscript_optional(xs):
+    if xs:
+        return xs[0]
+    return -7
